@@ -23,7 +23,8 @@ LIMITS = ["adjacent high+low surrogate pairs written as two code units are outsi
           "histories of at most 20 steps"]
 ASSUMPTIONS = ["reference serializer / signers / threshold model"]
 
-OPS = ["write", "load", "sign_mem", "sign_mem", "gpg_file", "gpg_file_wide", "rewrite_loaded", "load", "write_after_variant", "external_replace"]
+OPS = ["write", "load", "sign_mem", "sign_mem", "gpg_file", "gpg_file_wide", "rewrite_loaded", "load", "write_after_variant", "external_replace",
+       "reload_discarding_changes", "reload_discarding_changes"]
 
 
 def plan(tier, seed):
@@ -82,6 +83,7 @@ def run_history(case, rec, lib, scratch, real_gpg_fpr=None):
         gq = gnupg.SHIPPED[fpr]
         allkeys = keys + [types.SimpleNamespace(hex=gq)]
     on_disk = False
+    on_disk_ever = False
     prev_panel = None
     signed_after_reload = False
     reloaded = False
@@ -91,6 +93,23 @@ def run_history(case, rec, lib, scratch, real_gpg_fpr=None):
             before_entries = {k: boundary.fingerprint(v) for k, v in mem["signatures"].items()}
             added = False
             external = False
+            if op == "reload_discarding_changes" and on_disk_ever:
+                # the caller drops its (possibly modified, unsaved) copy and loads the file again: what comes back is
+                # what the FILE holds, whatever was done to earlier loaded objects
+                fb = open(fn, "rb").read()
+                l = boundary.call(lib, C.load_metadata_from_file, fn)
+                ops_done.append("reload")
+                rec.count("reloads_discarding_changes")
+                if not l.accepted or canonjson.canon(l.value) != canonjson.canon(json.loads(fb)):
+                    rec.violation("roundtrip/load_metadata_from_file/returns-other-than-file-content",
+                                  "loading the unchanged file again returned a value that is not what the file holds "
+                                  "(earlier in-memory edits of a previously loaded object leaked into it)", case)
+                    return
+                mem = l.value
+                on_disk = True
+                reloaded = True
+                prev_panel = None  # the in-memory envelope was replaced: panel continuity restarts here
+                continue
             if op == "gpg_file_wide":
                 # the stored file is valid JSON in another (wider) layout, e.g. hand-edited or written by another tool;
                 # signing it in place must still leave exactly the canonical form of the signed envelope
@@ -130,6 +149,7 @@ def run_history(case, rec, lib, scratch, real_gpg_fpr=None):
                     rec.violation(boundary.mechanism("persist", "write_metadata_to_file", "return", o), "write failed", case)
                     return
                 on_disk = True
+                on_disk_ever = True
                 ops_done.append("write")
                 fb = open(fn, "rb").read()
                 rec.count("file_byte_checks")
